@@ -99,7 +99,7 @@ Definition sglob (st : sfs) (d : string) (pk : patk) : list sent :=
                   (filter (fun e => String.eqb (k_dag (fst e)) d) (sfiles st)))
   else [].
 
-Definition sts_of (e : sent) : string := take 17 (k_stamp (fst e)).     (* what the regexp sees: no milliseconds *)
+Definition sts_of (e : sent) : string := k_stamp (fst e).     (* what the anchored regexp sees: the start stamp with milliseconds *)
 Definition sfilter_latest (l : list sent) (n : nat) : list sent :=
   firstn n (map snd (sort_desc fst (map (fun e => (sts_of e, e)) l))).
 
@@ -113,32 +113,38 @@ Definition sfind_in (l : list sent) (req : string) : sfres :=
   end.
 Definition sq_find (st : sfs) (d req : string) : sfres := sfind_in (sglob st d PAll) req.
 
+Fixpoint sload_first (c : scache) (st : sfs) (l : list sent) : scache * lres :=
+  match l with
+  | [] => (c, LNoData)
+  | e :: r => match sload_latest c st (fst e) with
+              | (c', Some p) => (c', LOk p)
+              | (c', None) => sload_first c' st r
+              end
+  end.
 Definition slatest_of (c : scache) (st : sfs) (l : list sent) : scache * lres :=
   match l with
   | [] => (c, LNoData)
-  | _ => match sfilter_latest l 1 with
-         | e :: _ => match sload_latest c st (fst e) with
-                     | (c', Some p) => (c', LOk p)
-                     | (c', None) => (c', LErr)
-                     end
-         | [] => (c, LNoData)
-         end
+  | _ => sload_first c st (sfilter_latest l (List.length l))
   end.
 Definition sq_latest (c : scache) (st : sfs) (d : string) (day : option string) : scache * lres :=
   slatest_of c st (sglob st d (PLatest day)).
 
-Fixpoint sload_all (c : scache) (st : sfs) (l : list sent) : scache * list payload :=
+Fixpoint sload_upto (c : scache) (st : sfs) (l : list sent) (n : nat) {struct l} : scache * list payload :=
   match l with
   | [] => (c, [])
-  | e :: r => match sload_latest c st (fst e) with
-              | (c', Some p) => let (c'', ps) := sload_all c' st r in (c'', p :: ps)
-              | (c', None) => sload_all c' st r
-              end
+  | e :: r =>
+      match n with
+      | O => (c, [])
+      | S n' => match sload_latest c st (fst e) with
+                | (c', Some p) => let (c'', ps) := sload_upto c' st r n' in (c'', p :: ps)
+                | (c', None) => sload_upto c' st r n
+                end
+      end
   end.
 Definition srecent_of (c : scache) (st : sfs) (l : list sent) (n : nat) : scache * list payload :=
   match l with
   | [] => (c, [])
-  | _ => sload_all c st (sfilter_latest l n)
+  | _ => sload_upto c st (sfilter_latest l (List.length l)) n
   end.
 Definition sq_recent (c : scache) (st : sfs) (d : string) (n : nat) : scache * list payload :=
   srecent_of c st (sglob st d PAll) n.
